@@ -1,11 +1,11 @@
 #!/bin/bash
-# tools/seedverify.sh <prop> <A|B>   — confirm a sub-agent's seeded change independently in a
+# tools/seedverify.sh <prop> <A|B|C|D>   — confirm a sub-agent's seeded change independently in a
 # scratch worktree: builds, whole suite passes with it, demo fails with it, demo passes without it.
 # On success copies it to /verif/seeded/<prop>-<letter>/ .
 set -u
 prop="$1"; letter="$2"
-src="/tmp/wt/$prop-out/$letter"
-export GOFLAGS=-mod=mod GOPROXY=off
+case "$letter" in A|B) src="/tmp/wt/$prop-out/$letter";; *) src="/tmp/wt2/$prop-out/$letter";; esac
+export GOFLAGS=-mod=mod GOPROXY=off GOSUMDB=off GOTOOLCHAIN=local PATH=/opt/veriftools/go1.26.8/bin:$PATH
 wt="/tmp/sv-$prop-$letter"
 git -C /repo worktree remove --force "$wt" >/dev/null 2>&1
 git -C /repo worktree add --detach "$wt" -q || exit 2
